@@ -79,7 +79,7 @@ def run(ctx, ck):
             if not dep:
                 # far-field style: a multiplicative factor is a sign array built (inside the loop)
                 # only by array constructors from literals and the image sign (kvec, kv2, kv2g)
-                CONSTR = ('np.array', 'np.tile', 'np.copy', 'np.ones', 'np.zeros')
+                CONSTR = ('np.array', 'np.tile', 'np.copy', 'np.ones', 'np.zeros', 'np.where', 'np.repeat', 'np.broadcast_to')
 
                 def is_sign_array(name, at, depth, seen):
                     if depth <= 0 or (name, at) in seen:
